@@ -3,7 +3,7 @@
 cd /verif
 for i in $(seq -w 1 20); do
   c=C$i; s=$(date +%s)
-  out=$(./check $c quick 2>&1); rc=$?
+  out=$(./check $c ${TIER:-quick} 2>&1); rc=$?
   echo "$c rc=$rc $(( $(date +%s)-s ))s violations=$(echo "$out" | grep -c '^VIOLATION')"
   [ $rc -ne 0 ] && echo "$out" | tail -5 | cut -c1-300
 done
